@@ -291,6 +291,114 @@ def run_case(sh, s, d, case):
     return (sorted(nontrivial), {'seed': s, 'kind': kind, 'trace': trace, 'historical': [h['label'] for h in hist][:8]}, len(hist))
 
 
+def multidb_case(sh, s, d, case):
+    """two databases, a cross-database reference from the first into the second; a historical connection on the first reaches
+    into the second (get_connection / following the reference) and must see it at the same past point"""
+    import ZODB
+    import ZODB.MappingStorage
+    import transaction
+    from zv import recfs, clock
+    from zv.objs import Cell
+    from ZODB.POSException import POSKeyError
+    from ZODB.utils import p64, u64
+    rnd = random.Random(s)
+    FSM = recfs.install()
+    recfs.LOG.enabled = False
+    clock.install(clock.FakeClock())
+    kinds = rnd.choice([('file', 'file'), ('mapping', 'mapping'), ('file', 'mapping'), ('mapping', 'file')])
+
+    def mk(kind, name):
+        return FSM.FileStorage(os.path.join(d, name + '.fs')) if kind == 'file' else ZODB.MappingStorage.MappingStorage()
+    dbs = {}
+    db1 = ZODB.DB(mk(kinds[0], 'one'), databases=dbs, database_name='one')
+    db2 = ZODB.DB(mk(kinds[1], 'two'), databases=dbs, database_name='two')
+    tm = transaction.TransactionManager()
+    c1 = db1.open(tm)
+    tm.begin()
+    c2 = c1.get_connection('two')
+    a, m = Cell('a0'), Cell('m0')
+    c2.add(m)
+    c2.root()['m'] = m
+    c1.root()['a'] = a
+    c1.root()['mount'] = m
+    tm.commit()
+    st1, st2 = [(a._p_serial, 'a0')], [(m._p_serial, 'm0')]
+    hist = []
+    label = '%s+%s' % kinds
+
+    def exp(states, bound):
+        c = [v for (t, v) in states if t < bound]
+        return c[-1] if c else None
+
+    def check(h, again):
+        h['tm'].begin()
+        bound = h['bound']
+        c = h['conn']
+        if rnd.random() < 0.3:
+            c.cacheMinimize()
+        sh.count('multi_database_historical_reads')
+        got1 = c.root()['a'].payload
+        if got1 != exp(st1, bound):
+            sh.violation('c15:multidb:historical-connection-reads-another-state', {'db': 'one', 'label': h['label'], 'got': got1, 'want': exp(st1, bound), 'reread': again}, case)
+            return False
+        want2 = exp(st2, bound)
+        if want2 is not None and bound <= p64(u64(db2.lastTransaction()) + 1):
+            try:
+                got2 = (c.root()['mount'].payload, c.get_connection('two').root()['m'].payload)
+            except Exception as e:
+                sh.violation('c15:multidb:reaching-the-other-database-raises-%s' % type(e).__name__, {'label': h['label'], 'exc': repr(e)[:160]}, case)
+                return False
+            sh.count('multi_database_reads_of_the_other_database')
+            if got2 != (want2, want2):
+                sh.violation('c15:multidb:other-database-seen-at-another-point', {'label': h['label'], 'got': got2, 'want': want2, 'reread': again,
+                                                                                   'bound_is_a_tid_of_the_other_database': bound in [t for t, _ in st2]}, case)
+                return False
+        h['tm'].abort()
+        return True
+    n = 0
+    for i in range(rnd.choice([4, 7, 10])):
+        tm.begin()
+        which = rnd.choice(['one', 'two', 'both', 'two'])
+        if which in ('one', 'both'):
+            a.payload = 'a%d' % (i + 1)
+        if which in ('two', 'both'):
+            m.payload = 'm%d' % (i + 1)
+        tm.commit()
+        if which in ('one', 'both'):
+            st1.append((a._p_serial, a.payload))
+        if which in ('two', 'both'):
+            st2.append((m._p_serial, m.payload))
+        for _ in range(rnd.choice([1, 2])):
+            P = rnd.choice([t for t, _ in st1 + st2])
+            form = rnd.choice(['at', 'before', 'before', 'before+1'])
+            kw, bound = {'at': ({'at': P}, p64(u64(P) + 1)), 'before': ({'before': P}, P), 'before+1': ({'before': p64(u64(P) + 1)}, p64(u64(P) + 1))}[form]
+            if bound <= st1[0][0] or bound > p64(u64(db1.lastTransaction()) + 1):
+                continue
+            if bound > p64(u64(db2.lastTransaction()) + 1):
+                # loading the first database's root opens the second one at the same point at once, and DB.open refuses points
+                # after *that* database's last transaction ("in the future"): multi-database use is outside the statement's
+                # quantifier, so such points get no verdict here
+                sh.count('multi_database_points_after_the_other_databases_last_transaction')
+                continue
+            tmh = transaction.TransactionManager()
+            h = {'conn': db1.open(tmh, **kw), 'tm': tmh, 'bound': bound, 'label': '%s %s=%s' % (label, form, 'tid-of-%s' % ('two' if P in [t for t, _ in st2] else 'one'))}
+            hist.append(h)
+            n += 1
+            sh.count('historical_opens')
+            if not check(h, False):
+                return None
+        for h in hist:
+            if not check(h, True):
+                return None
+    for h in hist:
+        h['conn'].close()
+    c1.close()
+    db1.close()
+    db2.close()
+    sh.note('storage_kinds', 'multidb:' + label)
+    return ([digest(s, 'multidb')] if n else [], {'seed': s, 'kind': 'multidb:' + label, 'historical': [h['label'] for h in hist][:6]}, n)
+
+
 def run_shard(params):
     logging.disable(logging.CRITICAL)
     sh = Shard(params)
@@ -300,7 +408,11 @@ def run_shard(params):
         s = case_seed(params, i)
         case = {'seed': s}
         d = sh.fresh_dir('c15')
-        r = guarded(sh, 'c15', case, lambda: run_case(sh, s, d, case))
+        if i % 6 == 5:
+            case['multidb'] = True
+            r = guarded(sh, 'c15', case, lambda: multidb_case(sh, s, d, case))
+        else:
+            r = guarded(sh, 'c15', case, lambda: run_case(sh, s, d, case))
         if r:
             for dg in r[0]:
                 sh.nontrivial.add(dg)
@@ -313,5 +425,6 @@ def run_shard(params):
 def replay(case, scratch):
     logging.disable(logging.CRITICAL)
     sh = Shard({'scratch': scratch})
-    guarded(sh, 'c15', case, lambda: run_case(sh, case['seed'], sh.fresh_dir('c15'), case))
+    f = multidb_case if case.get('multidb') else run_case
+    guarded(sh, 'c15', case, lambda: f(sh, case['seed'], sh.fresh_dir('c15'), case))
     return sh.violations
